@@ -264,7 +264,8 @@ def invariant(ctx):
         # breaks: decided however the method is laid out
         ctx.ob('INV/%s' % ci.qualname, owner, p.node if p.node is not None else m.node, False, depends=deps,
                # ... or the defect is non-zero on *every* path that leaves the method normally: whichever of them is feasible breaks the invariant
-               definite=not p.state.problems and not probs and (len(p.state.conds) <= 1 or (p.exit != 'raise' and sum(1 for q, _d in bad if q.exit == p.exit) == judged.get(p.exit))), why=
+               definite=not p.state.problems and not probs and (len(p.state.conds) <= 1 or (p.exit != 'raise' and sum(1 for q, _d in bad if q.exit == p.exit) == judged.get(p.exit) and
+                                                                                                   not _has_fresh_symbol(d))), why=
                'on a path ending in %s, %s.%s leaves end_step - start_step - len(events) = %r (len=%r, start=%r, end=%r): length and step range disagree' % (
                    p.exit, ci.qualname, n, d, p.state.L, p.state.S, p.state.E), construct='%s.%s keeps end_step - start_step == len (%s exit)' % (ci.qualname, n, p.exit))
       for (node, why) in probs[:3]:
@@ -279,6 +280,13 @@ def invariant(ctx):
         continue
       idx_seen.add(k)
       ctx.ob('IDX/slice-bound', m, node, ok, why)
+
+
+def _has_fresh_symbol(d):
+  """The defect mentions a length / value the interpreter made up a name for (L_3, V_7): it is "not known to be zero", not "known to be
+  non-zero"."""
+  import re as _re
+  return bool(_re.search(r'\b[A-Z]_\d+\b', repr(d)))
 
 
 def allowed_path(ctx, ci, m, p):
